@@ -269,6 +269,61 @@ R.add('L7.4', l74, [dict(fragment=False), dict(fragment=True)], replay=replay_l7
       expect=['an acknowledged datagram delivered its never-before-received message to the peer'],
       bounds='one receive step from an arbitrary 256-bit message window; offsets -32767..32767; payload <= 100 opaque bytes')
 
+
+# ------------------------------------------------------------------ L7.5 two endpoints: True only after the peer has the message
+def l75(ticks, fragmented):
+    """a guaranteed send (single datagram or fragmented) between two real endpoints; every transmission and every
+    ack-carrying reply of the first rounds is lost or delivered by symbolic choice, then the network heals.  At every
+    tick: if the callback has reported True the peer application already holds the whole message; at the end the
+    callback has fired exactly once, with True."""
+    clock = proto.clock_at(100.0)
+    tx = proto.mk_client_side(clock=clock)
+    rx = proto.mk_server_side(clock=clock)
+    # something was sent before, so that message sequence numbers are not all fresh
+    warm, wl = rope.blob('warmup', 0, 20)
+    tx.send(warm, RetryMode.NONE, None)
+    raw0 = tx._encode_packet(tx._build_packet())
+    rx._recv_datagram(conn.PacketHeader.from_bytes(True, raw0), raw0)
+    rx.incoming_messages = []
+    payload, L = rope.blob('p', 0, None)
+    if fragmented:
+        assume(And(L > Packet.MAX_PAYLOAD_SIZE, L <= Packet.MAX_PAYLOAD_SIZE + Packet.MAX_FRAGMENT_SIZE))
+    else:
+        assume(L <= Packet.MAX_PAYLOAD_SIZE)
+    cb = Rec('user')
+    tx.send(payload, RetryMode.RETRY_ON_TIMEOUT, cb)
+    lossy = 2
+    for tick in range(ticks):
+        clock.advance(0.6)
+        healed = tick >= lossy
+        t0 = tx.clock()
+        pkt = tx._build_packet()
+        if pkt is not None:
+            raw = tx._encode_packet(pkt)
+            if healed or not bool(symbool('lose_data%d' % tick)):
+                rx._recv_datagram(conn.PacketHeader.from_bytes(True, raw), raw)
+        tx._check_timeout(t0)
+        rep = rx.update()
+        if rep is not None:
+            rpkt, rkey, raddr = rep
+            rraw = rpkt.to_bytes(rkey)
+            if healed or not bool(symbool('lose_ack%d' % tick)):
+                tx._recv_datagram(conn.PacketHeader.from_bytes(False, rraw), rraw)
+        got = [d for s_, d in rx.incoming_messages]
+        if True in cb.calls:
+            check(len(got) >= 1 and got[0] == payload, 'success is reported only after the peer has accepted the whole message', tick=tick)
+        check(False not in cb.calls, 'a guaranteed send never reports failure while the connection is open', tick=tick)
+        check(len(cb.calls) <= 1, 'the callback fires at most once', tick=tick)
+    check(cb.calls == [True], 'after the network healed the callback has fired exactly once, with True')
+
+
+R.add('L7.5', l75, lambda tier: [dict(ticks=(5 if tier == 'quick' else 7), fragmented=False), dict(ticks=(7 if tier == 'quick' else 9), fragmented=True)],
+      desc='two real endpoints, guaranteed send (single / fragmented), symbolic losses in both directions then a healed network: '
+           'True only once the peer holds the message; exactly one firing',
+      expect=['success is reported only after the peer has accepted the whole message',
+              'after the network healed the callback has fired exactly once, with True'],
+      bounds='5 / 7 (thorough 7 / 9) ticks of 0.6 s, losses in the first 2 rounds; payload up to one fragment above the single-datagram limit')
+
 import sys as _sys  # noqa: E402
 for _l in R.lemmas.values():
     if _l.replay is None:
